@@ -117,21 +117,25 @@ class SchemaCache:
         return self.c[key]
 
 
-def trace_wire(chk, events, name="Trace_Wire"):
-    """TLC judges every recorded event; returns {id: verdict}"""
+def trace_wire(chk, events, name="Trace_Wire", batch=8000):
+    """TLC judges every recorded event; returns {id: verdict}.  TLC holds the whole event file in memory, so large sets
+    of events go in several runs."""
     if not events:
         return {}
-    path = os.path.join(chk.workdir, "events-%d.ndjson" % len(os.listdir(chk.workdir)))
-    with open(path, "w") as f:
-        for e in events:
-            f.write(json.dumps(e) + "\n")
-    res = tlc.run("Trace_Wire", workdir=chk.workdir, env={"TRACE_FILE": path}, timeout=1500, heap="4g")
-    chk.add_tlc(res, "%s[%d events]" % (name, len(events)))
-    v = {x["id"]: x for x in res.verdicts}
+    v = {}
+    for b in range(0, len(events), batch):
+        part = events[b:b + batch]
+        path = os.path.join(chk.workdir, "events-%d-%d.ndjson" % (len(os.listdir(chk.workdir)), b))
+        with open(path, "w") as f:
+            for e in part:
+                f.write(json.dumps(e) + "\n")
+        res = tlc.run("Trace_Wire", workdir=chk.workdir, env={"TRACE_FILE": path}, timeout=2400, heap="4g")
+        chk.add_tlc(res, "%s[%d events]" % (name, len(part)))
+        v.update({x["id"]: x for x in res.verdicts})
+        os.remove(path)
     missing = [e["id"] for e in events if e["id"] not in v]
     if missing:
         raise core.Machinery("Trace_Wire gave no verdict for %d events (first id %s)" % (len(missing), missing[0]))
-    os.remove(path)
     return v
 
 
